@@ -125,12 +125,18 @@ def hyp_reads(ctx, n):
             path = os.path.join(scratch, 'blocked.bin')
             with open(path, 'wb') as f:
                 f.write(blocked)
-            for buffering in (-1, 0):
+            # `peek`: the caller looked at the first bytes and rewound (as one does after ipm_info), so the buffered
+            # reader already holds read-ahead when the unblocker starts
+            for buffering, peek in ((-1, 0), (0, 0), (-1, 4), (1500, 24)):
                 with open(path, 'rb', buffering=buffering) as f:
+                    if peek:
+                        f.read(peek)
+                        f.seek(0)
                     res = do_reads(blocked, sizes, source=f)
                 ctx.labels['real-file-reads'] += 1
                 if res:
-                    ctx.fail(res[0] + ':real-file', {'nbytes': nbytes, 'extra': extra, 'sizes': sizes, 'buffering': buffering}, res[1] + f' (real file, buffering={buffering})')
+                    ctx.fail(res[0] + ':real-file', {'nbytes': nbytes, 'extra': extra, 'sizes': sizes, 'buffering': buffering, 'peek': peek},
+                             res[1] + f' (real file, buffering={buffering}, {peek} bytes read and rewound first)')
     scratch = tempfile.mkdtemp(prefix='cardutil-verif-c05-')
     try:
         harness.drive(ctx, READS, body, n, salt='reads')
@@ -268,6 +274,9 @@ def replay(case):
             with open(os.path.join(d, 'b.bin'), 'wb') as f:
                 f.write(data)
             with open(os.path.join(d, 'b.bin'), 'rb', buffering=case['buffering']) as f:
+                if case.get('peek'):
+                    f.read(case['peek'])
+                    f.seek(0)
                 res = do_reads(data, list(case['sizes']), source=f)
             return (res[0] + ':real-file', res[1]) if res else None
         finally:
